@@ -239,6 +239,25 @@ impl LruManager {
             crate::StorageError::Cache(format!("invalid LRU file: {}", path.display()))
         })?;
 
+        // An entry is in use iff it is linked into the list. The key bytes
+        // cannot tell: an all-zero key is a valid key. Walk the list from
+        // the LRU tail before touching any state, so that a file with
+        // out-of-range or cyclic links is rejected as a whole.
+        let mut linked = vec![false; entries.len()];
+        let mut idx = header.lru_tail;
+        while idx != LRU_SENTINEL {
+            match linked.get_mut(idx as usize) {
+                Some(seen) if !*seen => *seen = true,
+                _ => {
+                    return Err(crate::StorageError::Cache(format!(
+                        "invalid LRU file (broken entry links): {}",
+                        path.display()
+                    )));
+                }
+            }
+            idx = entries[idx as usize].next;
+        }
+
         // Rebuild the key map and free list
         self.header = header;
         self.key_map.clear();
@@ -248,7 +267,7 @@ impl LruManager {
         self.entries = entries;
 
         for (i, entry) in self.entries.iter().enumerate() {
-            if entry.is_active() {
+            if linked[i] {
                 self.key_map.insert(entry.ekey, i as u32);
             } else {
                 self.free_list.push(i as u32);
@@ -366,12 +385,11 @@ impl LruManager {
     where
         F: FnMut(&[u8; 9]),
     {
+        // Every linked entry is active (an all-zero key is a valid key).
         let mut idx = self.header.lru_tail;
         while idx != LRU_SENTINEL {
             let entry = &self.entries[idx as usize];
-            if entry.is_active() {
-                callback(&entry.ekey);
-            }
+            callback(&entry.ekey);
             idx = entry.next;
         }
     }
